@@ -260,7 +260,7 @@ impl Machine for Board {
 pub fn run_c39(cli: &Cli) -> Report {
     let mut rep = Report::new(cli, "model_checking");
     rep.rule("E2: every sequence of counted trades by 7 traders with volume increments {1,2,5} (thorough: {1,2,5,11}) through the real update_leaderboard (hook): at most five distinct entries, non-increasing, showing the latest volumes, filled with the top traders, nobody excluded from a full board has more volume than its last entry; plus E1 on extend_competition_time over end time, extension duration, cap and trigger time at the i64 limits: never earlier, never past max(old end, now + cap)");
-    rep.assume("merge-window/threshold bookkeeping lives inline in the on_executed handler and needs the competition program world; the struct-level functions are explored here");
+    rep.assume("end to end (E3, breadth first): real increase / decrease orders of seven traders (four put on the board by real trades beforehand) executed by the store with the competition program as callback (on_created / on_executed / on_closed CPIs signed by the store's callback authority), clock advances inside and beyond the merge window and past the end time: participant volumes equal the position size changes of executed orders inside the competition time, the merge-window / threshold bookkeeping decides extensions exactly as the reference, end time never earlier and never beyond max(old end, now + cap), and the board invariants hold on the stored account after every trade; svm-lite runtime trusted");
     svm::install();
     let th = cli.tier.thorough();
     let traders: [Pubkey; NT] = std::array::from_fn(|i| addr(&format!("trader-{i}")));
@@ -269,7 +269,9 @@ pub fn run_c39(cli: &Cli) -> Report {
     let m = Board { traders, acts };
     let start = LSt { comp: new_comp(10_000, 100, 500), vols: [0; NT] };
     if let Some(rv) = &cli.replay {
-        if rv.get("path").is_some() {
+        if rv["ctx"]["machine"] == "competition" {
+            crate::compworld::run(&mut rep, cli);
+        } else if rv.get("path").is_some() {
             e2::replay_into(&mut rep, &m, &[start], rv);
         } else {
             rep.sample(json!({"note": "closed-form case: re-run the quick tier", "case": rv}));
@@ -279,6 +281,8 @@ pub fn run_c39(cli: &Cli) -> Report {
     }
     let depth = if th { 7 } else { 6 };
     e2::explore(&mut rep, "leaderboard updates", &m, vec![start], &e2::Config { depth, max_states: 20_000_000 }, json!({}));
+    // end to end: real orders executed by the store with the competition program as their callback
+    crate::compworld::run(&mut rep, cli);
     // extensions
     let ends: Vec<i64> = vec![i64::MIN, -1, 0, 100, 1000, i64::MAX - 50, i64::MAX];
     e1::run(&mut rep, "end-time extensions", &ends, |&end, sink| {
